@@ -201,7 +201,7 @@ func emitQueueCase(o *vh.Out, size int, lines []int, gs []qgroup, ops []qop) {
 	impl := runQueueImpl(size, lines, gs, ops)
 	n := countComments(gs)
 	if !queueOracle(impl, gs) {
-		o.Oracle("queue-emission", line+"\tlines="+fmt.Sprint(lines), impl)
+		o.Oracle("queue-emission", line, impl+" lines="+fmt.Sprint(lines))
 	}
 	o.Count(fmt.Sprintf("queue_groups_%d", len(gs)))
 	o.Count(fmt.Sprintf("queue_ops_%d", len(ops)))
